@@ -52,7 +52,8 @@ RK(m, v, k) == [m |-> m, v |-> v, k |-> k]
 
 \* which property owns a general correctness formula in the current context
 Own(P, m, base) ==
-  IF m.aborted THEN "C19"
+  IF P.fam \notin WFFams /\ ~m.aborted THEN ""      \* C01-C04 only speak about programs that are well-formed in every state
+  ELSE IF m.aborted THEN (IF P.fam \in WFFams THEN "C19" ELSE "")
   ELSE IF m.probe /\ m.buOk THEN "C03"
   ELSE IF P.fam = "IDENT" THEN "C15"
   ELSE IF P.fam = "FAULT" /\ m.everFault THEN "C18"
@@ -345,8 +346,8 @@ OnCheckTaskStart(P, m, st, e) ==
       d == [k |-> "rq", x |-> e.t, c |-> e.c, s |-> e.s]
       key == <<TRUE, e.t>>
       v == V(f.t # 0 /\ DepRecorded(st, f.t, d), <<"C08", "validated_dependency_not_recorded">>)
-           \cup V(~f.bad, <<"C02", "continued_after_inconsistent">>)
-           \cup (IF f.t = 0 THEN {} ELSE V(ValidationOrder(P, m, st, f, key), <<"C02", "validation_order">>))
+           \cup V(~f.bad, <<Own(P, m, "C02"), "continued_after_inconsistent">>)
+           \cup (IF f.t = 0 THEN {} ELSE V(ValidationOrder(P, m, st, f, key), <<Own(P, m, "C02"), "validation_order">>))
       m1 == SetTop(m, [f EXCEPT !.seq = Append(@, key)])
   IN R([m1 EXCEPT !.vstk = Append(@, [NoFrame EXCEPT !.t = e.t])], v)
 
@@ -369,8 +370,8 @@ OnCheckResStart(P, m, st, e) ==
       rec == f.t # 0 /\ f.t \in Tasks(st)
              /\ \E d \in Range(st.deps[f.t]) : IsResDep(d) /\ d.x = e.r /\ d.c = e.c /\ d.s = e.s
       v == V(rec, <<"C08", "validated_dependency_not_recorded">>)
-           \cup V(~f.bad, <<"C02", "continued_after_inconsistent">>)
-           \cup (IF f.t = 0 THEN {} ELSE V(ValidationOrder(P, m, st, f, key), <<"C02", "validation_order">>))
+           \cup V(~f.bad, <<Own(P, m, "C02"), "continued_after_inconsistent">>)
+           \cup (IF f.t = 0 THEN {} ELSE V(ValidationOrder(P, m, st, f, key), <<Own(P, m, "C02"), "validation_order">>))
   IN R(SetTop(m, [f EXCEPT !.seq = Append(@, key)]), v)
 
 OnCheckCall(P, m, st, e) ==
@@ -397,24 +398,26 @@ OnExecStart(P, m, st, e) ==
       f == TopF(m)
       own == Own(P, m, "C02")
       isBU == m.build = "bu"
-      vOnce == IF isBU THEN V(t \notin m.bexecd, <<"C04", "executed_twice_in_build">>)
+      c04 == IF P.fam \in WFFams /\ ~m.aborted THEN "C04" ELSE ""
+      vOnce == IF isBU THEN V(t \notin m.bexecd, <<c04, "executed_twice_in_build">>)
                ELSE V(m.execd[t] = 0, <<own, "executed_twice_in_session">>)
       known == t \in Tasks(st)
       vJust == IF ~known THEN {<<"INTEGRITY", "unknown_task">>}
                ELSE IF isBU
-               THEN V(t \in st.queue \/ st.out[t] = NONE, <<"C04", "unaffected_task_executed">>)
-                    \cup V(t \notin st.queue \/ \A q \in st.queue \ {t} : ~Reach(st, t, q), <<"C04", "executed_before_scheduled_dependency">>)
+               THEN V(t \in st.queue \/ st.out[t] = NONE, <<c04, "unaffected_task_executed">>)
+                    \cup V(t \notin st.queue \/ \A q \in st.queue \ {t} : ~Reach(st, t, q), <<c04, "executed_before_scheduled_dependency">>)
                ELSE V(f.t = t, <<"C17", "execution_outside_validation">>)
                     \cup V(f.t # t \/ st.out[t] = NONE \/ f.bad,
-                           <<IF m.probe /\ m.buOk THEN "C03" ELSE own, "unjustified_execution">>)
-      vIdem == IF ~isBU /\ m.clean /\ m.curRoot \in m.prevRoots /\ ~m.aborted
+                           <<own, "unjustified_execution">>)
+      vIdem == IF ~isBU /\ m.clean /\ m.curRoot \in m.prevRoots /\ ~m.aborted /\ m.fault = {} /\ P.fam \in WFFams
                THEN {<<"C02", "not_idempotent">>} ELSE {}
       \* C03: a probe after a complete bottom-up build executes nothing (K1: stale after top-down-then-bottom-up)
-      probeExec == m.probe /\ m.buOk /\ ~isBU
+      probeExec == m.probe /\ m.buOk /\ ~isBU /\ P.fam \in WFFams
       v03 == IF probeExec /\ t \notin m.staleTD THEN {<<"C03", "stale_after_bottom_up">>} ELSE {}
       k03 == IF probeExec /\ t \in m.staleTD THEN {<<"C03", "K1_stale_requirer_after_top_down">>} ELSE {}
       m1 == [m EXCEPT !.execd[t] = @ + 1, !.bexecd = @ \cup {t},
                       !.perf[t] = <<>>, !.twochk = @ \ {t},
+                      !.curop[t] = [k |-> "", x |-> 0, c |-> "", f |-> 0, acc |-> 0],
                       !.vstk = IF f.t = t THEN Append(Front(@), [f EXCEPT !.ex = TRUE]) ELSE @]
       m2 == Bump(Bump(m1, IF isBU THEN "C04" ELSE "C02"), "C08")
   IN RK(IF probeExec THEN Bump(m2, "C03") ELSE m2, vOnce \cup vJust \cup vIdem \cup v03, k03)
@@ -445,7 +448,7 @@ OnOp(P, m, st, e) ==
       m0 == IF okT THEN FinishRq(m, st, cur) ELSE m
       prev == IF okT THEN m.curop[cur] ELSE [k |-> "", x |-> 0, c |-> "", f |-> 0, acc |-> 0]
       \* the value handed to the requirer is the one announced by require_end (as far as its checker observes)
-      vReq == IF okT /\ prev.k = "rq" /\ m.lastReqEnd.t = prev.x
+      vReq == IF okT /\ prev.k = "rq" /\ m.lastEv = "require_end" /\ m.lastReqEnd.t = prev.x
               THEN V(e.acc = Mix(prev.acc, OStamp(prev.c, m.lastReqEnd.o), P.na), <<"C17", "require_end_value">>) ELSE {}
       m1 == IF okT
             THEN [m0 EXCEPT !.curop[cur] = [k |-> op.k, x |-> op.x, c |-> op.c, f |-> op.f, acc |-> e.acc],
@@ -507,7 +510,8 @@ OnChkReqEnd(P, m, st, e) ==
   IN R(Bump(m1, "C04"), V((e.res = "inc") = inc, <<"C09", "task_check_result">>))
 
 OnSchedule(P, m, st, e) ==
-  R(m, V(m.chkFresh /\ m.lastChk.t = e.t /\ m.lastChk.bad, <<"C04", "scheduled_without_inconsistent_dependency">>))
+  R(m, V(m.chkFresh /\ m.lastChk.t = e.t /\ m.lastChk.bad,
+         <<IF P.fam \in WFFams /\ ~m.aborted THEN "C04" ELSE "", "scheduled_without_inconsistent_dependency">>))
 
 \* ---- session end -----------------------------------------------------------------------------------------------
 DumpDeps(td) == {[k |-> d.k, x |-> d.x, c |-> d.c, s |-> d.s] : d \in Range(td.deps)}
@@ -595,5 +599,6 @@ MonStep(P, m0, st, e) ==
                         !.lastT = IF e.ev \in {"exec_start", "task_exit", "task_enter", "exec_end"} THEN e.t ELSE @,
                         !.lastO = IF e.ev \in {"task_exit", "exec_end"} THEN e.o ELSE @,
                         !.chkFresh = IF e.ev \in {"chk_read_end", "chk_req_end"} THEN @ ELSE FALSE]
-  IN [m |-> m3, v |-> pre.v \cup nst.v \cup d.v, k |-> d.k]
+      allv == pre.v \cup nst.v \cup d.v
+  IN [m |-> m3, v |-> {t \in allv : t[1] # ""}, k |-> {t \in d.k : t[1] # ""}, st |-> st2]
 =============================================================================
